@@ -632,7 +632,8 @@ func RunC06(env *Env, rep *Report) {
 	for _, t := range tpls {
 		cases = append(cases, c06Case(t))
 	}
-	cases = append(cases, c06SpelledNamesCase("text"), c06SpelledNamesCase("movement"), c06LongRunCase())
+	cases = append(cases, c06SpelledNamesCase("text"), c06SpelledNamesCase("movement"), c06LongRunCase(),
+		c06RepeatVsSuffixCase(11, "1"), c06RepeatVsSuffixCase(11, "11"), c06RepeatVsSuffixCase(21, "2"), c06RepeatVsSuffixCase(2, "2"))
 	cases = append(cases, c06PairCase(), c06ClashCase("text"), c06ClashCase("movement"), c06ClashCaseAt("text", true), c06ClashCaseAt("movement", true), c06ClashCaseFull("text", false, true), c06ClashCaseFull("text", true, true), c06ClashCaseFull("movement", false, true))
 	rep.Technique = "symbolic execution of the real inline-text / moves() hoisting (go/ssa) with symbolic contents; the sharing pattern (which contents are equal) is enumerated by the solver through the parser's own set lookups (z3 seq + LIA)"
 	rep.Explanation = "Bounded symbolic verification, not a proof. Program templates placing inline texts and moves() in every position the property names (plain command, later argument, two in one command, inside if/else/while, switch, an autovar condition in an &&-chain and in a parenthesised group, a poryswitch case selected / not selected, inline map scripts incl. table rows, several scripts) are compiled by symbolic execution of the real code with the text contents as unconstrained SMT strings, string types none/ascii/braille/symbolic, step names symbolic. The parser's dedup lookups (inlineTextsSet / inlineMovementsSet) and the terminator test are decision points, so the solver enumerates every equality pattern among the contents and every 'already terminated' combination. Per path the oracle recomputes - forking on any equality the code did not decide - the expected label of every use (first appearance numbering per owning script, shared iff same final content and same type) and asserts: the command carries exactly that label; the label is defined exactly once with exactly that content and directive; nothing else is hoisted; no command is left with an empty argument. Two clash cases use String-sorted names so that 'user text/movement name = generated label' is found by the solver: it must be a compile error."
@@ -736,6 +737,33 @@ func c06LongRunCase() *Case {
 			want = append(want, cat("\t", step.Val))
 		}
 		want = append(want, "\tstep_end", cat(l1, ":"), cat("\t", step.Val), "\tstep_end")
+		return expectLines(x, "sharing", "output", nonBlank(outputLines(res.Out, false)), want)
+	}
+	return cs
+}
+
+// c06RepeatVsSuffixCase: 'walk_a * n' in one moves() and the single step
+// 'walk_a<suffix>' in another (a step whose name ends in the digits a
+// run-length would be written with): different movements, different labels.
+func c06RepeatVsSuffixCase(n int, suffix string) *Case {
+	atoms := &AtomTable{Coded: true}
+	a := atoms.New(ClsUserName, "script", "names")
+	cmd := atoms.New(ClsPlainCmd, "cmd", "cmds")
+	src := fmt.Sprintf("script %s {\n  %s(moves(walk_a * %d))\n  %s(moves(walk_a%s))\n}", a.Placeholder(), cmd.Placeholder(), n, cmd.Placeholder(), suffix)
+	prog := &Program{Atoms: atoms, Tops: []interface{}{&TopRaw{Text: src}}}
+	name := fmt.Sprintf("moves-repeat-%d-vs-step-named-walk_a%s", n, suffix)
+	cs := &Case{Name: "c06/" + name, Prog: prog, Variants: optVariants[:1], NonTrivial: true, Shape: c06Shape{Template: name}, MaxPaths: 16}
+	cs.Oracle = func(x *OracleCtx) *Violation {
+		res := x.Res["opt"]
+		if res.Err.IsErr || res.Err.Panic != "" {
+			return &Violation{Sub: "accept", Msg: "rejected: " + interp.ToString(res.Err.Msg) + res.Err.Panic}
+		}
+		l0, l1 := cat(a.Val, "_Movement_0"), cat(a.Val, "_Movement_1")
+		want := []interp.Value{cat(a.Val, "::"), cat("\t", cmd.Val, " ", l0), cat("\t", cmd.Val, " ", l1), "\treturn", cat(l0, ":")}
+		for i := 0; i < n; i++ {
+			want = append(want, "\twalk_a")
+		}
+		want = append(want, "\tstep_end", cat(l1, ":"), "\twalk_a"+suffix, "\tstep_end")
 		return expectLines(x, "sharing", "output", nonBlank(outputLines(res.Out, false)), want)
 	}
 	return cs
